@@ -38,7 +38,7 @@ impl EdgeId {
 //@end
 }
 pub type Entry = (NodeId, EdgeId);
-//@struct GraphStore keep=outgoing,incoming,frozen_outgoing,frozen_incoming,edge_endpoints,edge_type_ids,free_edge_ids,next_edge_id,edge_type_index,current_version
+//@struct GraphStore keep=outgoing,incoming,frozen_outgoing,frozen_incoming,edge_endpoints,edge_type_ids,edge_properties,free_edge_ids,next_edge_id,edge_type_index,current_version
 //@item type TxnId
 //@enum GraphError
 //@item type GraphResult
@@ -55,11 +55,20 @@ impl Clone for EdgeType {
 }
 #[verifier::external_body]
 pub struct PropertyMap { m: u8 }
+impl Clone for PropertyMap { #[verifier::external_body] fn clone(&self) -> (r: Self) ensures r == *self { unimplemented!() } }
+impl PropertyMap {
+    pub uninterp spec fn empty(&self) -> bool;
+    #[verifier::external_body] pub fn is_empty(&self) -> (r: bool) ensures r == self.empty() { unimplemented!() }
+}
 pub struct Edge { pub id: EdgeId, pub version: u64, pub source: NodeId, pub target: NodeId, pub edge_type: EdgeType, pub properties: PropertyMap, pub created_at: i64 }
 impl Edge {
     #[verifier::external_body]
     pub fn new(id: EdgeId, source: NodeId, target: NodeId, edge_type: EdgeType) -> (r: Edge)
         ensures r.id == id, r.source == source, r.target == target, r.edge_type == edge_type
+    { unimplemented!() }
+    #[verifier::external_body]
+    pub fn new_with_properties(id: EdgeId, source: NodeId, target: NodeId, edge_type: EdgeType, properties: PropertyMap) -> (r: Edge)
+        ensures r.id == id, r.source == source, r.target == target, r.edge_type == edge_type, r.properties == properties
     { unimplemented!() }
 }
 /// the frozen (CSR) tier as unit store_adj proves it: per node a sequence of entries, handed out in order
@@ -146,6 +155,11 @@ impl GraphStore {
     /// the type table (edge_type_table / edge_type_to_id) is outside the projected state
     #[verifier::external_body]
     pub fn intern_edge_type(&self, edge_type: &EdgeType) -> (r: u16) { unimplemented!() }
+    /// the columnar copy of edge properties (unit columnar, C30) is outside the projected state
+    #[verifier::external_body]
+    pub fn note_edge_columns(&self, idx: usize, properties: &PropertyMap) { unimplemented!() }
+    /// only live edges have an entry in the sparse property map (delete_edge removes it)
+    pub open spec fn props_fresh(&self) -> bool { forall|e: EdgeId| #[trigger] self.edge_properties@.contains_key(e) ==> self.live(e) }
     /// catalog bookkeeping (triple statistics) is outside the projected state
     #[verifier::external_body]
     pub fn note_edge_created(&self, source: NodeId, edge_type: &EdgeType, target: NodeId) { unimplemented!() }
@@ -195,7 +209,7 @@ impl GraphStore {
     pub open spec fn adjacency_same(&self, o: &GraphStore) -> bool {
         self.outgoing@ == o.outgoing@ && self.incoming@ == o.incoming@ && self.edge_endpoints@ == o.edge_endpoints@
             && self.frozen_outgoing == o.frozen_outgoing && self.frozen_incoming == o.frozen_incoming
-            && self.free_edge_ids@ == o.free_edge_ids@ && self.next_edge_id == o.next_edge_id
+            && self.free_edge_ids@ == o.free_edge_ids@ && self.next_edge_id == o.next_edge_id && self.edge_properties@ == o.edge_properties@
     }
     /// after edge_added from a store without dangling entries, there are none either, and the new id occurs exactly once on
     /// each side: a reused id inherits nothing from its previous owner
@@ -422,6 +436,7 @@ impl GraphStore {
         old(self).slot_ok(source), old(self).slot_ok(target),      // the bulk loader's contract: both nodes were created first
 //@ensures
         r is Ok,      //#never_refuses
+        final(self).edge_properties@ == old(self).edge_properties@,      //#sparse_properties_untouched
         r matches Ok(e) ==> final(self).edge_added(old(self), source, target, e),      //#adds_exactly_this_edge
         final(self).no_dangling() && final(self).ids_fresh(),      //#invariants_kept
 //@atstart
@@ -446,7 +461,54 @@ impl GraphStore {
 //@ensures
         r matches Ok(e) ==> final(self).edge_added(old(self), source, target, e),      //#adds_exactly_this_edge
         r is Err ==> final(self).adjacency_same(old(self)),      //#refused_changes_nothing
+        final(self).edge_properties@ == old(self).edge_properties@,      //#sparse_properties_untouched
         final(self).no_dangling() && final(self).ids_fresh(),      //#invariants_kept
+        r matches Ok(e) ==> final(self).edge_type_index@.contains_key(edge_type)
+            && final(self).edge_type_index@[edge_type]@ == (if old(self).edge_type_index@.contains_key(edge_type) { old(self).edge_type_index@[edge_type]@ } else { Set::<EdgeId>::empty() }).insert(e),      //#indexed_under_its_type
+        r is Ok ==> forall|t: EdgeType| t != edge_type ==> (#[trigger] final(self).edge_type_index@.contains_key(t)) == old(self).edge_type_index@.contains_key(t)
+            && (old(self).edge_type_index@.contains_key(t) ==> final(self).edge_type_index@[t] == old(self).edge_type_index@[t]),      //#other_types_index_untouched
+        r is Err ==> final(self).edge_type_index@ == old(self).edge_type_index@,      //#refused_leaves_the_type_index
+        r is Ok ==> (sorted_by_nbr(old(self).outgoing@[source.0 as int]@) ==> sorted_by_nbr(final(self).outgoing@[source.0 as int]@))
+            && (sorted_by_nbr(old(self).incoming@[target.0 as int]@) ==> sorted_by_nbr(final(self).incoming@[target.0 as int]@)),      //#sorted_buffers_stay_sorted
+//@closure unwrap_or_else#1 (p: usize) -> (o: usize) ensures o == p
+//@closure unwrap_or_else#2 (p: usize) -> (o: usize) ensures o == p
+//@atstart
+        proof { axiom_pair_clone(); axiom_key_models(); axiom_vec_len(&self.edge_endpoints); }
+        let ghost popped = old(self).free_edge_ids@.len() > 0;
+//@before "out_list.insert(pos, (target, edge_id));"
+            proof {
+                Self::lemma_insert_multiset(out_list@, pos as int, (target, edge_id));
+                if sorted_by_nbr(out_list@) { Self::lemma_insert_keeps_sorted(out_list@, pos as int, (target, edge_id)); }
+            }
+//@before "in_list.insert(pos, (source, edge_id));"
+            proof {
+                Self::lemma_insert_multiset(in_list@, pos as int, (source, edge_id));
+                if sorted_by_nbr(in_list@) { Self::lemma_insert_keeps_sorted(in_list@, pos as int, (source, edge_id)); }
+            }
+//@before "Ok(edge_id)"
+        proof {
+            self.lemma_edge_created(&*old(self), source, target, edge_id, popped);
+        }
+//@end
+
+//@fn GraphStore::create_edge_with_properties ret=r
+//@replace "edge_type: impl Into<EdgeType>" => "edge_type: EdgeType" :: generic Into<EdgeType> argument taken as the EdgeType it is converted to
+//@replace "edge_type.into()" => "edge_type" :: same
+//@replace "out_list.binary_search_by_key(&target, |(nid, _)| *nid)" => "search_by_nbr(out_list, &target)" :: slice method with a key closure over a tuple pattern: routed through a wrapper whose body is the same call
+//@replace "in_list.binary_search_by_key(&source, |(nid, _)| *nid)" => "search_by_nbr(in_list, &source)" :: same
+//@replace "self.edge_type_index<NL>                    .entry(edge_type.clone())<NL>                    .or_insert_with(HashSet::new)" => "map_entry_or_insert_with(&mut self.edge_type_index, edge_type.clone(), HashSet::new)" :: HashMap entry API: wrapper whose body is the original chain
+//@replacespan "let version = self.current_version;" .. "self.catalog.on_edge_created(source, src_labels, &edge_type, target, tgt_labels);" => "self.note_edge_created(source, &edge_type, target);" :: catalog bookkeeping outside the projected state (D4; a closure returning borrowed label sets and a static OnceLock): stub
+//@replacespan "for (key, value) in &properties {" .. "}" => "self.note_edge_columns(idx, &properties);" :: the columnar copy of the properties (unit columnar) is outside the projected state (D4; iteration over the opaque property map): stub
+//@requires
+        old(self).no_dangling(), old(self).ids_fresh(), old(self).next_edge_id < u64::MAX, old(self).props_fresh(),
+//@ensures
+        r matches Ok(e) ==> final(self).edge_added(old(self), source, target, e),      //#adds_exactly_this_edge
+        r is Err ==> final(self).adjacency_same(old(self)),      //#refused_changes_nothing
+        final(self).no_dangling() && final(self).ids_fresh() && final(self).props_fresh(),      //#invariants_kept
+        r matches Ok(e) ==> (if properties.empty() { !final(self).edge_properties@.contains_key(e) } else { final(self).edge_properties@.contains_key(e) && final(self).edge_properties@[e] == properties }),      //#carries_exactly_the_given_properties
+        r matches Ok(e) ==> forall|x: EdgeId| x != e ==> (#[trigger] final(self).edge_properties@.contains_key(x)) == old(self).edge_properties@.contains_key(x)
+            && (old(self).edge_properties@.contains_key(x) ==> final(self).edge_properties@[x] == old(self).edge_properties@[x]),      //#other_edges_properties_untouched
+        r is Err ==> final(self).edge_properties@ == old(self).edge_properties@,      //#refused_leaves_the_properties
         r matches Ok(e) ==> final(self).edge_type_index@.contains_key(edge_type)
             && final(self).edge_type_index@[edge_type]@ == (if old(self).edge_type_index@.contains_key(edge_type) { old(self).edge_type_index@[edge_type]@ } else { Set::<EdgeId>::empty() }).insert(e),      //#indexed_under_its_type
         r is Ok ==> forall|t: EdgeType| t != edge_type ==> (#[trigger] final(self).edge_type_index@.contains_key(t)) == old(self).edge_type_index@.contains_key(t)
